@@ -18,7 +18,7 @@ CONSTANTS
   Deviations = {"ExceptionAsScore67", "LaterPatternReplacesException", "ExceptionsSplitOnLinesOnly"}
   PatTexts <- MCPatTexts
   ExcTexts <- MCExcTextsA
-  ExcListTexts <- MCExcListsSmall
+  ExcListTexts <- MCNoTexts
   Words <- MCWordsMixed
   Lc <- MCLc
 INVARIANTS StateIsBuild Refines CodecRoundTrip
